@@ -47,7 +47,7 @@ class IntsToStrings(Harness):
             # stays well inside its budget on a loaded machine (the union of the bands is the whole int64 range)
             bands = [[I64_MIN, -10 ** 12 - 1], [-10 ** 12, -10 ** 6 - 1], [-10 ** 6, 10 ** 6], [10 ** 6 + 1, 10 ** 12],
                      [10 ** 12 + 1, I64_MAX]]
-            sk += [dict(ranges=[b, full]) for b in bands]
+            sk += [dict(ranges=[b, b2]) for b in bands for b2 in bands]      # int64 x int64 as 25 band pairs
             sk += [dict(ranges=[[-10 ** 4, 10 ** 4], b, [-10 ** 4, 10 ** 4]]) for b in bands]
         return sk
 
